@@ -1118,6 +1118,98 @@ class Module:
         self.out.append(indent(code, 1))
         self.out.append("")
 
+    # -- T13b: the validation part of Vector.__init__ ------------------------------------------------------------------------------------
+    def translate_vector_ctor(self, cls: str, lean_name: str) -> None:
+        """T13b: `Vector.__init__` from `values = list(values)` to `self._values = list(values)`: what is stored and which value type, or
+        the refusal, over `Model.Vector.Arg` (the iterable), `VTArg` (the value_type argument), `Item` / `ItemType`.
+
+        Statements (closed):  `values = list(values)`;  `if not values: <empty block> else: <loop>`;  in the empty block
+        `if not value_type: raise`, `if not (isinstance(value_type, type) and issubclass(value_type, (bool, int, float, str))): raise`,
+        `self._value_type = value_type`;  the loop `for index, value in enumerate(values):` with `if not index: self._value_type =
+        type(value)`, `if not isinstance(value, (bool, int, float, str)): raise`, `if not isinstance(value, self._value_type): raise`
+        in the source's order;  `if not isinstance(units, str): raise` (tier T15's business, skipped);  `self._values = list(values)`."""
+        fn = self.find_func(cls, "__init__")
+        body = [st for st in fn.body if not (isinstance(st, ast.Expr) and isinstance(st.value, ast.Constant))]
+
+        def fail(msg, node):
+            raise Untranslatable(f"{cls}.__init__: {msg}", node, self.path)
+
+        def err(st):
+            exc = st.exc
+            nm = ast.unparse(exc.func).split(".")[-1] if isinstance(exc, ast.Call) else None
+            if nm not in ERROR_FACTORIES:
+                fail("raise of unknown error", st)
+            return f"Except.error PyErr.{ERROR_FACTORIES[nm]}"
+        SCALARS = "(bool, int, float, str)"
+        i = 0
+        if not (isinstance(body[0], ast.Assign) and ast.unparse(body[0]) == "values = list(values)"):
+            fail("expected `values = list(values)` first (the iterable is consumed exactly once)", body[0])
+        branch = body[1]
+        if not (isinstance(branch, ast.If) and ast.unparse(branch.test) == "not values" and branch.orelse):
+            fail("expected `if not values: … else: …`", branch)
+        # the empty case
+        def empty_block(ss):
+            if not ss:
+                fail("the empty case does not set the value type", branch)
+            st, rest = ss[0], ss[1:]
+            if isinstance(st, ast.If) and not st.orelse and len(st.body) == 1 and isinstance(st.body[0], ast.Raise):
+                t = ast.unparse(st.test)
+                if t == "not value_type":
+                    c = "value_type.falsy = true"
+                elif t == f"not (isinstance(value_type, type) and issubclass(value_type, {SCALARS}))":
+                    c = "¬ (value_type.isSupported = true)"
+                else:
+                    fail(f"unsupported test on value_type: {t[:80]}", st)
+                return f"if {c} then {err(st.body[0])} else\n" + empty_block(rest)
+            if ast.unparse(st) == "self._value_type = value_type":
+                if rest:
+                    fail("statements after the value type is set", rest[0])
+                return "Except.ok (value_type.asItemType, values)"
+            fail(f"unsupported statement {ast.unparse(st)[:80]}", st)
+        # the loop
+        loop_block = branch.orelse
+        if not (len(loop_block) == 1 and isinstance(loop_block[0], ast.For) and not loop_block[0].orelse
+                and ast.unparse(loop_block[0].target) == "(index, value)" and ast.unparse(loop_block[0].iter) == "enumerate(values)"):
+            fail("expected `for index, value in enumerate(values):`", loop_block[0])
+
+        def loop_body(ss):
+            if not ss:
+                return "Except.ok vt"
+            st, rest = ss[0], ss[1:]
+            if isinstance(st, ast.If) and not st.orelse and len(st.body) == 1:
+                t = ast.unparse(st.test)
+                inner = st.body[0]
+                if t == "not index" and ast.unparse(inner) == "self._value_type = type(value)":
+                    return "let vt : Model.Vector.ItemType := if index = 0 then Model.Vector.typeOf value else vt\n" + loop_body(rest)
+                if isinstance(inner, ast.Raise):
+                    if t == f"not isinstance(value, {SCALARS})":
+                        c = "¬ (Model.Vector.isScalar value = true)"
+                    elif t == "not isinstance(value, self._value_type)":
+                        c = "¬ (Model.Vector.itemInstOfType value vt = true)"
+                    else:
+                        fail(f"unsupported test in the loop: {t[:80]}", st)
+                    return f"if {c} then {err(inner)} else\n" + loop_body(rest)
+            fail(f"unsupported loop statement {ast.unparse(st)[:80]}", st)
+        loop = ("Except.bind (Model.Vector.forEnum values 0 Model.Vector.ItemType.other (fun index value vt =>\n" + indent(loop_body(loop_block[0].body), 2)
+                + ")) (fun vt =>\n    Except.ok (vt, values))")
+        # what follows: the units check (skipped), then the store of the materialised list
+        stored = False
+        for st in body[2:]:
+            src = ast.unparse(st)
+            if src.startswith("if not isinstance(units, str):"):
+                continue
+            if src == "self._values = list(values)":
+                stored = True
+                break
+            fail(f"unexpected statement before the values are stored: {src[:80]}", st)
+        if not stored:
+            fail("`self._values = list(values)` not found", fn)
+        code = ("Except.bind value_arg.items (fun values =>\n  if values.isEmpty = true then\n" + indent(empty_block(branch.body), 2) + "\n  else\n" + indent(loop, 2) + ")")
+        self.out.append(f"/-- generated from `{cls}.__init__` (up to `self._values = list(values)`): (the value type, the stored items), or the refusal -/")
+        self.out.append(f"@[pygen] def {lean_name} (value_arg : Model.Vector.Arg) (value_type : Model.Vector.VTArg) : Except PyErr (Model.Vector.ItemType × List Model.Vector.Item) :=")
+        self.out.append(indent(code, 1))
+        self.out.append("")
+
     # -- T14: a dict-backed mapping with change notifications ----------------------------------------------------------------------
     def translate_dict_class(self, cls: str) -> None:
         """T14: `ExtendedPropertyDictionary` (nitypes/waveform/_extended_properties.py): a MutableMapping over `self._properties` whose
